@@ -135,6 +135,37 @@ func ruleX10(p *Prog, r *Report) {
 						return
 					}
 				}
+				// single exit: from the hit edge a success return is reached without appending an entry (no append, no
+				// call of a method of the receiver), while the miss edge appends
+				reached := false
+				first := blk.Succs[hit].Instrs[0]
+				visit := func(z ssa.Instruction) bool {
+					if reached {
+						return true
+					}
+					if c, ok := z.(*ssa.Call); ok {
+						if bi, ok := c.Call.Value.(*ssa.Builtin); ok && bi.Name() == "append" {
+							return true
+						}
+						if g := c.Call.StaticCallee(); g != nil && len(c.Call.Args) > 0 && sameValue(c.Call.Args[0], f.Params[0]) {
+							return true
+						}
+					}
+					if ret, ok := z.(*ssa.Return); ok {
+						if cl, _ := classifyReturn(ret); cl == retSuccess {
+							reached = true
+						}
+						return true
+					}
+					return false
+				}
+				if !visit(first) {
+					reachFrom(f, first, nil, visit)
+				}
+				if reached && blk.Succs[hit] != blk.Succs[1-hit] {
+					keys = append(keys, lk.Index)
+					return
+				}
 			}
 		})
 		if len(keys) == 0 {
